@@ -7,17 +7,20 @@ open Vchain
 let starts p s = Stdlib.String.length s >= Stdlib.String.length p && Stdlib.String.sub s 0 (Stdlib.String.length p) = p
 let after p s = Stdlib.String.sub s (Stdlib.String.length p) (Stdlib.String.length s - Stdlib.String.length p)
 
-type scen = { h : hist; conc : (int * Store.src) list; trace : (int * Conc.opk) list }
+type scen = { h : hist; conc : (int * Store.src) list; trace : (int * Conc.opk) list; ca : BinNums.coq_N list; nreads : int }
 
 let parse_scen input =
   let h = parse_history input in
-  let conc = ref [] and trace = ref [] in
+  let conc = ref [] and trace = ref [] and ca = ref [] and nreads = ref 0 in
   Stdlib.List.iter (fun x ->
       if starts "trace:" x then
         trace := Stdlib.List.map (fun t ->
             let tid = Stdlib.Char.code t.[0] - 48 in
             let k = match t.[1] with 'W' -> Conc.OpW | 'T' -> Conc.OpT | _ -> Conc.OpR in (tid, k))
             (Stdlib.List.filter (fun t -> t <> "") (split_on '.' (after "trace:" x)))
+      else if starts "ca:" x then
+        ca := Stdlib.List.map (fun t -> n_of_zt (Z.of_string t)) (Stdlib.List.filter (fun t -> t <> "") (split_on '.' (after "ca:" x)))
+      else if starts "readers:" x then nreads := int_of_string (after "readers:" x)
       else if starts "t" x && not (starts "trace" x) then begin
         match Stdlib.String.index_opt x ':' with
         | Some k ->
@@ -26,7 +29,7 @@ let parse_scen input =
           conc := (tid, Stdlib.List.hd sub) :: !conc
         | None -> ()
       end) h.extras;
-  { h; conc = Stdlib.List.rev !conc; trace = !trace }
+  { h; conc = Stdlib.List.rev !conc; trace = !trace; ca = !ca; nreads = !nreads }
 
 
 (* ---------- "free" cases: free-running readers checked for linearizability against the model ---------- *)
@@ -108,12 +111,13 @@ let free_model input =
   (* a read whose recorded answer is one of the allowed ones is echoed; otherwise the allowed set is printed *)
   let outs = Stdlib.List.map (fun r ->
       if answer_ok h mhat stores r r.ans then r.ans else "{" ^ Stdlib.String.concat "," (allowed h mhat stores r) ^ "}") reads in
-  rows_string final ^ "|" ^ Stdlib.String.concat "/" outs
+  rows_string final ^ "|" ^ Stdlib.String.concat "/" outs ^ "|ev=ok"
 
 let free_spec input obs =
   let h = parse_history input in
   match split_on '|' obs with
-  | [rows_s; answers] ->
+  | [rows_s; answers; evs] ->
+    if evs <> "ev=ok" then "FAIL add-events-not-exactly-one-per-stored-header " ^ evs else
     let stores = prefixes h and mhat = main_heights h in
     let reads = parse_reads h in
     let final = stores.(Stdlib.Array.length stores - 1) in
@@ -136,6 +140,14 @@ let free_spec input obs =
 let setup_store sc =
   Stdlib.List.fold_left (fun s sub -> fst (Chain.add sc.h.forbidden s sub)) (Chain.init sc.h.gid sc.h.gpl) sc.h.subs
 
+(* the common ancestor of headers of the setup follows parent links only: the same before, during and after any
+   reorganisation - computed on the setup store *)
+let ca_expected sc =
+  if sc.ca = [] then [] else
+    let a = match Query.common_ancestor (setup_store sc) sc.ca with
+      | Query.COk r -> dec_of_n r.Store.id | Query.CNil -> "nil" | _ -> "E" in
+    Stdlib.List.init sc.nreads (fun _ -> a)
+
 let model input =
   if is_free (parse_history input) then free_model input else
   let sc = parse_scen input in
@@ -156,6 +168,7 @@ let model input =
             sub.Store.s_id = i && (match Stdlib.List.assoc_opt (nat_of_int tid) st.Conc.c_outs with Some (Chain.Stored _) -> true | _ -> false)) sc.conc) in
         Printf.sprintf "%s=%d" (dec_of_n i) n) order in
     Stdlib.String.concat "," outs ^ "|" ^ Stdlib.String.concat "," tips ^ "|" ^ rows_string st.Conc.c_store ^ "|" ^ Stdlib.String.concat "," evs
+    ^ "|" ^ Stdlib.String.concat "," (ca_expected sc)
   end
 
 let rec perms = function
@@ -165,9 +178,11 @@ let rec perms = function
 let spec input obs =
   if is_free (parse_history input) then free_spec input obs else
   let sc = parse_scen input in
-  match split_on '|' obs with
-  | [outs; tips; rows_s; evs] ->
+  match (match split_on '|' obs with [a; b; c; d] -> [a; b; c; d; ""] | l -> l) with
+  | [outs; tips; rows_s; evs; cas] ->
     let rows = parse_rows rows_s in
+    let want_ca = Stdlib.String.concat "," (ca_expected sc) in
+    if cas <> want_ca then Printf.sprintf "FAIL reader-common-ancestor-wrong got %s want %s" cas want_ca else
     let ev_bad = Stdlib.List.filter (fun e -> match split_on '=' e with
         | [i; n] -> let present = Stdlib.List.exists (fun r -> dec_of_n r.Store.id = i) rows in
           let setup_has = Stdlib.List.exists (fun sub -> dec_of_n sub.Store.s_id = i) sc.h.subs in
